@@ -201,7 +201,8 @@ func checkC20(r *Result) {
 	})
 	okU := len(etpUsers) > 0
 	for u := range etpUsers {
-		if !strings.HasPrefix(u, "(*"+mteT+")") {
+		// the locked methods of the cache, or the inner type's own methods calling one another under that lock
+		if !strings.HasPrefix(u, "(*"+mteT+")") && !strings.HasPrefix(u, "(*"+etpT+")") {
 			okU = false
 		}
 	}
